@@ -116,6 +116,8 @@ def gen_case(rng, style=None):
             for _i in range(n):
                 f = [rng.random() for _ in range(d)]
                 fr_.append([_fmt(sum(f[a] * Hf[a][k] for a in range(d))) for k in range(d)])
+        if style != "dyadic" and rng.random() < 0.3:
+            fr_ = common.unfold_positions(rng, fr_, H, ppp)       # an unfolded (xu) frame
         pos.append(fr_)
     c = {"d": d, "kind": kind, "style": style, "H": H, "ppp": ppp, "n": n, "T": T, "pos": pos}
     mode = rng.choice(["nn", "cut", "ctype"])
